@@ -3,7 +3,7 @@ NEXT Next
 CONSTRAINT Emit
 CONSTANTS
   Mode = "rlinear"
-  Stages = {"Inc", "Dbl", "Even", "Odd", "Err2", "Err3", "Err4", "Dup", "Rep", "Split", "Sum", "Dedup", "BSum2", "BSum3", "BFlat2", "BFlat3", "Buf1", "Buf2", "OPar1", "OPar2", "OPar3", "Par2", "Par3"}
+  Stages = {"Inc", "Dbl", "Even", "Odd", "Err2", "Err3", "Err4", "Dup", "Rep", "Split", "Sum", "Dedup", "BSum2", "BSum3", "BFlat2", "BFlat3", "Buf1", "Buf2", "OPar1", "OPar2", "OPar3", "Par2", "Par3", "FMC", "FMM2"}
   InputsKind = "q"
   MaxDepth = 0
   SubStages = {}
